@@ -90,7 +90,7 @@ def build_case(case):
         m = {"id": eid, "t0": cmap[ev["t0"]], "t1": cmap[ev.get("t1", ev["t0"])], "eng": E(eng_id),
              "planned": bool(ev.get("planned", False)), "real_t0": ev["t0"], "real_t1": ev.get("t1", ev["t0"])}
         if kind == "impulse":
-            tid = tgt_ids[ev.get("target", 0)]
+            tid = NEW_TARGET_ID if ev.get("target") == "added" else tgt_ids[ev.get("target", 0)]
             events.append({**base, "scope": "agent_propagation", "scope_instance_id": tid, "event_type": "impulse",
                            "thrust_vector": [0.0, 0.0, 1e-4] if ev.get("frame", "eci") == "eci" else [1e-4, 0.0, 0.0],
                            "thrust_frame": ev.get("frame", "eci"), "planned": m["planned"]})
@@ -166,7 +166,7 @@ def _run_case(case):
 
 def make_cases(ctx: Ctx, rng):
     steps = STEPS_Q if ctx.quick else STEPS_T
-    starts = STARTS[:6] if ctx.quick else STARTS
+    starts = STARTS[:4] if ctx.quick else STARTS
     n = 4
     cases = []
 
@@ -191,6 +191,14 @@ def make_cases(ctx: Ctx, rng):
             j = rng.randint(1, n)
             add(start, step, [{"kind": "impulse", "t0": j * step, "planned": True},
                               {"kind": "impulse", "t0": (j - 1) * step + 1, "planned": False, "target": 1}])
+            # overlapping duration events on one sensor / one engine, and an impulse on a target added earlier in the run
+            a = rng.randint(1, n - 1)
+            add(start, step, [{"kind": "bias", "t0": a * step, "t1": (a + 1) * step, "sensor": 0},
+                              {"kind": "bias", "t0": (a - 1) * step + 1, "t1": n * step, "sensor": 0},
+                              {"kind": "priority", "t0": a * step, "t1": (n + 1) * step, "engine": 0}])
+            if not ctx.quick or si % 2 == 0:
+                add(start, step, [{"kind": "addTarget", "t0": a * step},
+                                  {"kind": "impulse", "t0": min(n, a + 1) * step, "planned": True, "target": "added"}])
             # the run is performed in two propagateTo calls that meet exactly at an event's epoch
             j = rng.randint(1, n - 1)
             add(start, step, [{"kind": "impulse", "t0": j * step, "planned": (si + j) % 2 == 0}], split=[j, n - j])
